@@ -16,7 +16,8 @@ Ops (all on the real `agent.MergeConfig` / `agent.ReadConfigPaths`):
                        ORACLE = Go's `time.ParseDuration` on every non-empty `*Raw` string (`<hex>:<ns>|e;…`), `u` = the
                        file also carries an unknown key
   `read <path>…`     → `<result>` | `error`; path = `m` missing, `f:<cfg>` file, `f!` undecodable file,
-                       `d:<hexname>~<j|b|s>~<cfg>|…` directory (j: file, b: undecodable file, s: sub-directory)
+                       `d:<hexname>~<j|b|s>~<cfg>|…` directory (j: file, b: undecodable file, s: sub-directory),
+                       `=<k>` path k given again, `@<k>/<hexname>` the entry <name> of directory path k given explicitly
 
 The model output interprets the regenerated rule table (`Gen.MergeConfig.table`), value
 view for the result and heap view for the mutation flag.  The MONITOR does not use the
@@ -184,6 +185,34 @@ def parsePath (s : String) : Option PathArg :=
     (((String.ofList (s.toList.drop 2)).splitOn "|").mapM parseEnt).map .dir
   else none
 
+/-- the path arguments of a `read` op, left to right; `=<k>` repeats path `k` (the same file or
+directory given again), `@<k>/<hexname>` names explicitly the entry `<name>` of directory path `k` -/
+def parsePaths : List String → List PathArg → Option (List PathArg)
+  | [], acc => some acc
+  | s :: rest, acc =>
+    let one : Option PathArg :=
+      if s.startsWith "=" then
+        match (String.ofList (s.toList.drop 1)).toNat? with
+        | some k => acc[k]?
+        | none => none
+      else if s.startsWith "@" then
+        match (String.ofList (s.toList.drop 1)).splitOn "/" with
+        | [ks, hn] =>
+          match ks.toNat?, stringOfHex? hn with
+          | some k, some name =>
+            match acc[k]? with
+            | some (.dir ents) =>
+              match ents.find? (fun e => e.name == name && !e.isDir) with
+              | some e => some (.file e.cfg)
+              | none => none
+            | _ => none
+          | _, _ => none
+        | _ => none
+      else parsePath s
+    match one with
+    | some p => parsePaths rest (acc ++ [p])
+    | none => none
+
 /-- the monitor's own reading of the documentation: files as given, directories contribute
 their non-directory `*.json` entries in lexical order; any unreadable / undecodable selected
 source makes the whole read fail. -/
@@ -271,7 +300,7 @@ def step (s : Unit) (op : List String) (impl : String) : LineOut Unit :=
       { state := s, model := some (showCfg table l ++ " " ++ showCfg table r), monitor := mon }
     | _, _, _ => { state := s, model := some "bad-op" }
   | "read" :: paths =>
-    match paths.mapM parsePath with
+    match parsePaths paths [] with
     | none => { state := s, model := some "bad-op" }
     | some ps =>
       let m := match readPathsS Gen.MergeConfig.readShape table ps with
